@@ -2,13 +2,16 @@
 import re
 from common import *
 import gen
-import c01, c02, c03, c04, c05, c06, c12, c15, c17
+import c01, c02, c03, c04, c05, c06, c11, c12, c13, c15, c16, c17
+import tchain
 
 BASE = {"chain": "chain", "chain_t": "chain", "hotchain": "hotchain", "hotchain_t": "hotchain", "op2": "op2", "op2_t": "op2"}
 
 
 def both_forms(text):
     """(local text, threads text) of one case, or None when the case has no thread-safe twin"""
+    if "append_chained" in text:
+        return None          # a member whose teardown re-enters its composite: the harness has it for the thread-safe form only
     m = re.match(r"^\(case (\S+) (\S+) (.*)$", text)
     cid, kind, rest = m.group(1), m.group(2), m.group(3)
     if kind in BASE:
@@ -44,6 +47,12 @@ def gather(tier, rng):
     take("finalize", c15.hot_cases(tier) + c15.cold_cases(tier))
     take("subscriptions", c17.alg_cases(tier, rng))
     take("trees", c01.cases_for(tier, rng))
+    take("timed-in-a-chain", tchain.cases(tier, rng))
+    take("two-subscriptions-of-a-timed-operator", tchain.two_cases(tier, rng))
+    take("share-publish", c11.histories(tier, rng))
+    take("independent-subscriptions", c13.cases_for(tier, rng))
+    take("producers-retire", c16.iter_cases(tier, rng) + c16.stream_cases(tier, rng) + c16.interval_cases(tier, rng))
+    take("finalize-twice", [c for c in c15.twice_cases(tier)])
     out = []
     for i, (name, a, b) in enumerate(pool):
         cid = "f%d" % i
@@ -98,11 +107,12 @@ def run(tier, seed, replay=None):
     c["distinct_nontrivial"] = len(set(p[2].split(" ", 2)[2] for p in pairs))
     c["generator_distribution"] = hist
     c["exhaustive"] = False
-    c["rule"] = ("the case sets of C01-C06, C12, C15, C17 and the unsubscription / scheduler cases of C02 (thinned to <= %d per family), every case "
+    c["rule"] = ("the case sets of C01-C06, C11-C13, C15-C17, the unsubscription / scheduler cases of C02, scheduler-using operators inside chains and "
+                 "subscribed twice (thinned to <= %d per family), every case "
                  "executed twice on the crate, once with the local types and operators and once with every one of them replaced by its thread-safe "
                  "counterpart (SubjectThreads, *_threads operators, BoxOpThreads, MultiSubscriptionThreads, finalize_threads ...), on one thread; the two "
                  "observations must be equal item by item (a panic of the local form and a hang or panic of the thread-safe one count as the same "
                  "failure)" % (6000 if tier == "quick" else 60000))
     rep.assumptions = ["histories are single-threaded; concurrent histories are C10's subject",
-                       "share / publish (C11) and the conversions (C14) are compared under their own checks"]
+                       "the conversions (C14) are compared under their own check"]
     return rep.finish()
